@@ -39,11 +39,52 @@ def coq_list(items, indent="  "):
     return "[\n" + ";\n".join(indent + "  " + i for i in items) + "\n" + indent + "]"
 
 
+class _DropNoOps(ast.NodeTransformer):
+    """Statements that cannot influence a value are dropped before the shapes are matched, so that a log line, a `print`, a
+    `warnings.warn`, a stray docstring-like string, a `pass` or an `assert isinstance(...)` added to the source is not mistaken for a
+    change of the translated logic (the translator stays fail-closed for everything else)."""
+
+    @staticmethod
+    def _noop(stmt):
+        if isinstance(stmt, ast.Pass):
+            return True
+        if isinstance(stmt, ast.Expr):
+            v = stmt.value
+            if isinstance(v, ast.Constant) and isinstance(v.value, str):
+                return False          # docstrings are handled by strip_doc (position matters there)
+            if isinstance(v, ast.Call):
+                f = v.func
+                if isinstance(f, ast.Name) and f.id == "print":
+                    return True
+                if isinstance(f, ast.Attribute) and isinstance(f.value, ast.Name) and f.value.id in ("logging", "logger", "warnings", "LOGGER", "log"):
+                    return True
+        if isinstance(stmt, ast.Assert):
+            t = stmt.test
+            if isinstance(t, ast.Call) and isinstance(t.func, ast.Name) and t.func.id == "isinstance":
+                return True
+        return False
+
+    def _clean(self, body):
+        out = [s for s in body if not self._noop(s)]
+        return out if out or not body else [ast.Pass()]
+
+    def generic_visit(self, node):
+        super().generic_visit(node)
+        for fld in ("body", "orelse", "finalbody"):
+            b = getattr(node, fld, None)
+            if isinstance(b, list) and b and all(isinstance(x, ast.stmt) for x in b):
+                nb = self._clean(b)
+                if fld != "body" and nb and all(isinstance(x, ast.Pass) for x in nb):
+                    nb = []
+                setattr(node, fld, nb)
+        return node
+
+
 def parse(repo, rel):
     path = os.path.join(repo, PKG, rel)
     with open(path) as f:
         src = f.read()
-    return ast.parse(src, filename=path)
+    return _DropNoOps().visit(ast.parse(src, filename=path))
 
 
 def find_class(tree, name):
